@@ -167,11 +167,13 @@ def run_c20(tier):
     parts = [
         dict(engine="c20", quick=20000, thorough=300000, build="default"),
         dict(engine="c20", quick=20000, thorough=300000, build="sync"),
+        dict(engine="c20s", quick=4000, thorough=60000, build="default"),
     ]
     sums, vios = _native("C20", parts, tier)
     plan = [
         ("threads", "", 16, 96, 2, 0.05),
         ("threads", "sync", 16, 96, 2, 0.05),
+        ("storm", "", 32, 192, 3, 0.1),
     ]
     msums, mvios, mstats = M.run("C20", _miri_jobs(plan, tier))
     return _finish("C20", tier, t0, sums, vios, msums, mvios, mstats, C20_RULE,
